@@ -57,7 +57,7 @@ def answer (line : String) : String :=
     let s := unhex h
     let i := i.toInt!
     if stringDerefOk s.length i then
-      (if i < 0 then "crash" else match s[i.toNat]? with
+      (match s[i.toNat]? with
         | some c => s!"ok {c.toNat}"
         | none => "crash")
     else "exc 3"
